@@ -39,6 +39,12 @@ def lruPush (cap : Nat) (cache : List (Bytes × Nat)) (topic : Bytes) (alias : N
   let c := (topic, alias) :: without
   if c.length > cap then c.dropLast else c
 
+/-- the alias given to a topic that is not cached: the next unused one while there is room, else the alias of the
+    least recently used entry (which is evicted) -/
+def lruAliasFor (cache : List (Bytes × Nat)) (maxAlias : Nat) : Nat :=
+  let fresh := cache.length + 1
+  if fresh > maxAlias then (match cache.getLast? with | some e => e.2 | none => fresh) else fresh
+
 /-- `resolve_and_apply_topic_alias` -/
 def OutResolver.resolve (r : OutResolver) (alias : Option Nat) (topic : Bytes) : OutResolver × Resolution :=
   match r.kind with
@@ -58,8 +64,7 @@ def OutResolver.resolve (r : OutResolver) (alias : Option Nat) (topic : Bytes) :
         -- hit: promote
         ({ r with cache := (topic, a) :: r.cache.filter (fun e => e.1 != topic) }, { skipTopic := true, alias := some a })
       | none =>
-        let fresh := r.cache.length + 1
-        let a := if fresh > r.maxAlias then (match r.cache.getLast? with | some e => e.2 | none => fresh) else fresh
+        let a := lruAliasFor r.cache r.maxAlias
         let cache1 := if r.cache.length = r.maxAlias then r.cache.dropLast else r.cache
         ({ r with cache := lruPush (lruCapacity cfg) cache1 topic a }, { skipTopic := false, alias := some a })
 
